@@ -78,10 +78,26 @@ def segment_safe(rng, grid, info):
     """a c02.wf_grid table made safe for segmentation: no row after the first starts with a blank cell or a marker"""
     grid = [list(r) for r in grid]
     grid[0] = [grid[0][0]] + ([""] if len(grid[0]) > 1 else [])
+    if len(grid) > 1 and (not grid[1] or starts_block(grid[1][0])):
+        grid[1] = ["all"]
     if info["transposed"]:
-        return grid      # lines start with a column name: never blank, never a marker (name alphabet)
+        # lines start with a column name; a line starting with a blank cell (comment lines after the columns) or a
+        # marker would end the block in a stream: the table ends before it
+        for i in range(2, len(grid)):
+            if not grid[i] or starts_block(grid[i][0]):
+                del grid[i:]
+                info["kinds"] = info["kinds"][:i - 2]
+                break
+        return grid
+    for i in range(2, min(4, len(grid))):
+        if not grid[i] or starts_block(grid[i][0]):
+            del grid[i:]                       # header row starting with a blank cell: the block ends there
+            info["kinds"], info["n_row"] = [], 0
+            return grid
     for i in range(4, len(grid)):
-        if grid[i] and starts_block(grid[i][0]):
+        if not grid[i]:
+            grid[i] = [rng.choice(SAFE_FIRST[info["kinds"][0]])]
+        elif starts_block(grid[i][0]):
             grid[i][0] = rng.choice(SAFE_FIRST[info["kinds"][0]])
     return grid
 
@@ -604,6 +620,15 @@ def run(tier, seed, model_ok, translator, search=False):
                 check_unknown_form(out, {"seed": seed, "index": i}, seen, text, xlsx,
                                    rng.choice(["bogus", "", "PDTABLE", "json", None, 5, "cellgrid ", "Pdtable", "jsondata\n"]),
                                    ops if model_ok else None, pend)
+        # forms the source knows beyond the three of the property (translator diff): they must be rejected as unknown
+        try:
+            extra = [k for k, _ in (translator or {}).get("values", {}).get("table_handlers", {}).get("pairs", []) if k not in FORMS]
+        except AttributeError:
+            extra = []
+        for to in extra:
+            check_unknown_form(out, {"seed": seed, "stream": "translator: extra TABLE_HANDLERS key"},
+                               [["**t"], ["all"], ["a"], ["-"], ["1"]], "**t;\nall\na\n-\n1\n", None, to,
+                               ops if model_ok else None, pend)
         # regression stream: a table without rows whose unit row is shorter than its name row (an input error since
         # /repo 7179188; before, it read as a Table on which table_to_json_data raised IndexError)
         for i in range(n // 25):
